@@ -174,7 +174,8 @@ type Res struct {
 type Def struct {
 	Ev  string     `json:"ev"` // "def"
 	ID  int        `json:"id"`
-	N   int        `json:"n"` // number of case lines that follow (trace files)
+	N   int        `json:"n"`  // number of case lines that follow (trace files)
+	SP  bool       `json:"sp"` // evaluate the specification's own property predicates on these cases
 	Cfg Cfg        `json:"cfg"`
 	Orc []OrcEntry `json:"orc"`
 	// family only:
